@@ -18,8 +18,8 @@ def run(run):
     run.assumptions = ['the same language (classes factory) is used for loading', 'attacker ids are pairwise different']
     run.mc('MC_Model', 'MC_Model_B.cfg', env={'VERIF_LANG': 'LTiny'}, timeout=600,
            name='ModelSM attackers / defenses / extras slice (state space the round trips sample from)')
-    maps_small = ['plain', 'yamlflow']
-    maps_all = ['plain', 'colon', 'yamlbool', 'yamlfloat', 'yamlflow', 'unicode', 'null', 'tilde', 'blank', 'newline', 'quote', 'int']
+    maps_small = ['plain', 'yamlflow', 'idlike']
+    maps_all = ['plain', 'colon', 'yamlbool', 'yamlfloat', 'yamlflow', 'unicode', 'null', 'tilde', 'blank', 'newline', 'quote', 'int', 'idlike', 'idlike0']
     # a file is a behaviour: its entries are add_asset(id, name) calls in file order - repeated names (renamed by the
     # documented policy), ids in any order, id 0, negative ids; every such file of n entries, loaded and compared with ModelSM
     nf = 3 if quick else 4
@@ -27,6 +27,11 @@ def run(run):
                    env={'VERIF_LANG': 'LTiny', 'VERIF_DEPTH': nf, 'VERIF_NASSETS': nf, 'VERIF_BUILDFIRST': 1, 'VERIF_MAXASSETS': nf,
                         'VERIF_NODEF': 1, 'VERIF_MAXREJ': 0}, timeout=1800,
                    name='every hand-written file of %d asset entries (names repeat, ids in any order) in the native json / yml' % nf)
+    # ... and files that also state defense values and associations (entries in file order)
+    run.gen_replay('Gen_Model', 'Gen_Model_file.cfg', 'harness.replay_files', {'langs': langs, 'formats': ('native',)},
+                   env={'VERIF_LANG': 'LTiny', 'VERIF_DEPTH': 3 if quick else 4, 'VERIF_NASSETS': 2, 'VERIF_BUILDFIRST': 1, 'VERIF_MAXASSETS': 2,
+                        'VERIF_MAXASSOCS': 2, 'VERIF_MAXMEMBERS': 2, 'VERIF_MAXREJ': 0}, timeout=1800,
+                   name='every hand-written file of 2 asset entries followed by %d defense / association entries' % (1 if quick else 2))
     run.gen_replay('Gen_Model', 'Gen_Model_states.cfg', A, {'langs': langs, 'namemaps': maps_small},
                    env={'VERIF_LANG': 'LTiny', 'VERIF_DEPTH': 3 if quick else 4, 'VERIF_MAXREJ': 0}, timeout=1500,
                    name='every distinct ModelSM state reachable by <= 3-4 accepted calls on LTiny, 2 name maps')
